@@ -1,1 +1,502 @@
+(* refcount: frame facts, the done-channel chain invariant and "never two resolver calls" (C09), for every event list. *)
 From Util Require Import Common.Base Common.ListLemmas RefCount.Model.
+
+(* ------------------------------------------------------------------ *)
+(* small list facts *)
+Lemma map_set_nth {A B} (f : A -> B) (l : list A) k v : map f (set_nth l k v) = set_nth (map f l) k (f v).
+Proof. revert k; induction l as [|h t IH]; intros [|k]; simpl; auto. now rewrite IH. Qed.
+
+Lemma set_nth_same_val {A} (l : list A) k x : nth_error l k = Some x -> set_nth l k x = l.
+Proof. revert k; induction l as [|h t IH]; intros [|k] H; simpl in *; try discriminate; [congruence|]. now rewrite IH. Qed.
+
+Lemma nth_error_map_some {A B} (f : A -> B) (l : list A) k x : nth_error l k = Some x -> nth_error (map f l) k = Some (f x).
+Proof. intros H. now apply map_nth_error. Qed.
+
+Lemma cnt_map {A B} (f : A -> B) (P : B -> bool) (l : list A) : cnt P (map f l) = cnt (fun x => P (f x)) l.
+Proof. induction l as [|h t IH]; [reflexivity|]. simpl map. rewrite !cnt_cons, IH. reflexivity. Qed.
+
+Lemma cnt_ext {A} (P Q : A -> bool) l : (forall x, In x l -> P x = Q x) -> cnt P l = cnt Q l.
+Proof.
+  induction l as [|h t IH]; intros H; [reflexivity|]. rewrite !cnt_cons, (H h (or_introl eq_refl)), IH; [reflexivity|].
+  intros x Hx. apply H. now right.
+Qed.
+
+Lemma nth_error_nth_d {A} (l : list A) k d x : nth_error l k = Some x -> nth k l d = x.
+Proof. intros H. now apply nth_error_nth. Qed.
+
+Lemma nth_error_snoc_last {A} (l : list A) x : nth_error (l ++ [x]) (length l) = Some x.
+Proof. rewrite nth_error_app2 by lia. now rewrite Nat.sub_diag. Qed.
+
+Lemma nth_error_snoc_cases {A} (l : list A) y a x :
+  nth_error (l ++ [y]) a = Some x -> (a < length l /\ nth_error l a = Some x) \/ (a = length l /\ x = y).
+Proof.
+  intros H. destruct (Nat.lt_ge_cases a (length l)) as [Hl|Hl].
+  - left. split; [exact Hl|]. now rewrite nth_error_app1 in H.
+  - right. rewrite nth_error_app2 in H by lia. destruct (a - length l) as [|k] eqn:E; simpl in H.
+    + split; [lia | congruence].
+    + destruct k; discriminate.
+Qed.
+
+(* ------------------------------------------------------------------ *)
+(* frame: everything a reference callback cannot touch, as one tuple *)
+Definition rest (s : st) :=
+  (kctx s, keep s, rcancel s, nonce s, waitch s, (resolved s, value s, verr s, vrel s, vgen s), (target s, terr s),
+   gs s, rellog s, relacts s, panicked s).
+
+Lemma rest_fields s s' : rest s' = rest s ->
+  kctx s' = kctx s /\ keep s' = keep s /\ rcancel s' = rcancel s /\ nonce s' = nonce s /\ waitch s' = waitch s /\
+  resolved s' = resolved s /\ value s' = value s /\ verr s' = verr s /\ vrel s' = vrel s /\ vgen s' = vgen s /\
+  target s' = target s /\ terr s' = terr s /\ gs s' = gs s /\ rellog s' = rellog s /\ relacts s' = relacts s /\
+  panicked s' = panicked s.
+Proof. unfold rest. intros H. inversion H. repeat split; reflexivity || assumption. Qed.
+
+Ltac frame := intros; reflexivity.
+Lemma rest_set_refs s x : rest (set_refs s x) = rest s. Proof. frame. Qed.
+Lemma rest_set_asyncs s x : rest (set_asyncs s x) = rest s. Proof. frame. Qed.
+Lemma rest_set_conss s x : rest (set_conss s x) = rest s. Proof. frame. Qed.
+Lemma rest_setc s c x : rest (setc s c x) = rest s. Proof. frame. Qed.
+Lemma refs_setc s c x : refs (setc s c x) = refs s. Proof. frame. Qed.
+Lemma refs_set_asyncs s x : refs (set_asyncs s x) = refs s. Proof. frame. Qed.
+Lemma gs_setg s g x : gs (setg s g x) = set_nth (gs s) g x. Proof. frame. Qed.
+Lemma conss_setc s c x : conss (setc s c x) = set_nth (conss s) c x. Proof. frame. Qed.
+
+Lemma rest_set_last s r n : rest (set_last s r n) = rest s.
+Proof. unfold set_last. destruct (nth_error (refs s) r); reflexivity. Qed.
+
+(* what the references look like to everything but their callbacks: membership and kind *)
+Definition rview (l : list ref) : list bool * list cbkind := (map rin l, map rkind l).
+
+Lemma rview_set_nth l r x y :
+  nth_error l r = Some x -> rin y = rin x -> rkind y = rkind x -> rview (set_nth l r y) = rview l.
+Proof.
+  intros Hx H1 H2. unfold rview. rewrite !map_set_nth, H1, H2.
+  rewrite (set_nth_same_val (map rin l) r (rin x)) by (now apply nth_error_map_some).
+  rewrite (set_nth_same_val (map rkind l) r (rkind x)) by (now apply nth_error_map_some). reflexivity.
+Qed.
+
+Lemma rview_set_last s r n : rview (refs (set_last s r n)) = rview (refs s).
+Proof.
+  unfold set_last. destruct (nth_error (refs s) r) as [x|] eqn:E; [|reflexivity].
+  cbn [refs set_refs]. now apply (rview_set_nth (refs s) r x).
+Qed.
+
+Lemma set_last_refs s r n x :
+  nth_error (refs s) r = Some x ->
+  refs (set_last s r n) = set_nth (refs s) r {| rin := rin x; rflag := rflag x; rkind := rkind x; rlast := Some n |}.
+Proof. intros H. unfold set_last. rewrite H. reflexivity. Qed.
+
+Lemma rest_invoke s r n : rest (invoke s r n) = rest s.
+Proof.
+  unfold invoke. destruct (nth_error (refs s) r) as [x|]; [|reflexivity].
+  destruct (rkind x) as [| | |c|c|c]; [reflexivity | apply rest_set_last | | | |].
+  - destruct n; [apply rest_set_last|]. rewrite rest_set_asyncs. apply rest_set_last.
+  - rewrite rest_setc. apply rest_set_last.
+  - destruct (cb_wwr (getc (set_last s r n) c) n (nonce (set_last s r n))) as [y fired].
+    destruct fired; [destruct (rflag x)|]; rewrite rest_setc; try rewrite rest_set_refs; apply rest_set_last.
+  - rewrite rest_setc. apply rest_set_last.
+Qed.
+
+Lemma rview_invoke s r n : rview (refs (invoke s r n)) = rview (refs s).
+Proof.
+  unfold invoke. destruct (nth_error (refs s) r) as [x|] eqn:E; [|reflexivity].
+  destruct (rkind x) as [| | |c|c|c] eqn:K; [reflexivity | apply rview_set_last | | | |].
+  - destruct n; [apply rview_set_last|]. rewrite refs_set_asyncs. apply rview_set_last.
+  - rewrite refs_setc. apply rview_set_last.
+  - destruct (cb_wwr (getc (set_last s r n) c) n (nonce (set_last s r n))) as [y fired].
+    destruct fired; [destruct (rflag x)|]; rewrite refs_setc; try apply rview_set_last.
+    cbn [refs set_refs]. rewrite (set_last_refs s r n x E).
+    rewrite <- (rview_set_last s r n), (set_last_refs s r n x E).
+    assert (Hl : r < length (refs s)) by (eapply nth_error_nth_len; eauto).
+    apply (rview_set_nth _ r {| rin := rin x; rflag := rflag x; rkind := rkind x; rlast := Some n |}).
+    + now apply nth_error_set_nth_same.
+    + reflexivity.
+    + cbn [rkind]. now rewrite K.
+  - rewrite refs_setc. apply rview_set_last.
+Qed.
+
+Lemma rview_length l l' : rview l' = rview l -> length l' = length l.
+Proof. unfold rview. intros H. inversion H as [[H1 H2]]. rewrite <- (map_length rin l'), H1. apply map_length. Qed.
+
+Lemma rview_nth l l' r : rview l' = rview l -> rin (nth r l' ref0) = rin (nth r l ref0) /\ rkind (nth r l' ref0) = rkind (nth r l ref0).
+Proof.
+  unfold rview. intros H. inversion H as [[H1 H2]].
+  change (rin ref0) with (rin ref0). rewrite <- !(map_nth rin), <- !(map_nth rkind), H1, H2. auto.
+Qed.
+
+Lemma rview_nrefs l l' : rview l' = rview l -> cnt rin l' = cnt rin l.
+Proof.
+  unfold rview. intros H. inversion H as [[H1 H2]].
+  assert (E : forall m, cnt rin m = cnt (fun b : bool => b) (map rin m)) by (intros m; rewrite cnt_map; reflexivity).
+  rewrite (E l'), (E l), H1. reflexivity.
+Qed.
+
+Definition cbs_fold (n : notif) (s : st) (r : nat) : st := if rin (nth r (refs s) ref0) then invoke s r n else s.
+
+Lemma call_cbs_fold s n : call_cbs s n = fold_left (cbs_fold n) (seq 0 (length (refs s))) s.
+Proof. reflexivity. Qed.
+
+Lemma cbs_fold_frame n rs : forall s, rest (fold_left (cbs_fold n) rs s) = rest s /\ rview (refs (fold_left (cbs_fold n) rs s)) = rview (refs s).
+Proof.
+  induction rs as [|r rs IH]; intros s; [split; reflexivity|]. cbn [fold_left].
+  destruct (IH (cbs_fold n s r)) as [H1 H2]. rewrite H1, H2. unfold cbs_fold.
+  destruct (rin (nth r (refs s) ref0)); [|split; reflexivity]. split; [apply rest_invoke | apply rview_invoke].
+Qed.
+
+Lemma rest_call_cbs s n : rest (call_cbs s n) = rest s.
+Proof. rewrite call_cbs_fold. apply cbs_fold_frame. Qed.
+Lemma rview_call_cbs s n : rview (refs (call_cbs s n)) = rview (refs s).
+Proof. rewrite call_cbs_fold. apply cbs_fold_frame. Qed.
+
+(* ------------------------------------------------------------------ *)
+(* The chain of done channels (C09: never two resolver calls).  It speaks about the goroutine list only. *)
+Definition pred_idx (i : nat) : option nat := match i with 0 => None | S j => Some j end.
+
+(* past the first select: inside the resolver, before the store section, or finished *)
+Definition act (x : gor) : bool := match gpcv x with GInRes | GStore _ _ _ | GDone => true | _ => false end.
+
+Definition gor_ok (l : list gor) (i : nat) (x : gor) : Prop :=
+  gwait x = pred_idx i /\ (act x = true -> forall j y, j < i -> nth_error l j = Some y -> gdone y = true).
+
+Definition InvG (l : list gor) : Prop := forall i x, nth_error l i = Some x -> gor_ok l i x.
+
+Lemma InvG_nil : InvG []. Proof. intros [|i] x H; discriminate. Qed.
+
+Lemma InvG_update l i x x' :
+  InvG l -> nth_error l i = Some x ->
+  gwait x' = gwait x -> (gdone x = true -> gdone x' = true) ->
+  (act x' = true -> forall j y, j < i -> nth_error l j = Some y -> gdone y = true) ->
+  InvG (set_nth l i x').
+Proof.
+  intros HI Hx Hw Hmono Hmine k y Hk.
+  assert (Hil : i < length l) by (eapply nth_error_nth_len; eauto).
+  destruct (Nat.eq_dec k i) as [->|Hne].
+  - rewrite nth_error_set_nth_same in Hk by exact Hil. inversion Hk; subst y.
+    destruct (HI i x Hx) as [H1 H3]. split; [congruence|].
+    intros Ho j z Hj Hz. rewrite nth_error_set_nth_other in Hz by lia. exact (Hmine Ho j z Hj Hz).
+  - rewrite nth_error_set_nth_other in Hk by exact Hne.
+    destruct (HI k y Hk) as [H1 H3]. split; [exact H1|].
+    intros Ho j z Hj Hz. destruct (Nat.eq_dec j i) as [->|Hji].
+    + rewrite nth_error_set_nth_same in Hz by exact Hil. inversion Hz; subst z.
+      apply Hmono. exact (H3 Ho i x Hj Hx).
+    + rewrite nth_error_set_nth_other in Hz by exact Hji. exact (H3 Ho j z Hj Hz).
+Qed.
+
+Lemma InvG_update_same_pc l i x x' :
+  InvG l -> nth_error l i = Some x -> gwait x' = gwait x -> gpcv x' = gpcv x -> InvG (set_nth l i x').
+Proof.
+  intros HI Hx Hw Hp. destruct (HI i x Hx) as [H1 H3].
+  apply (InvG_update l i x x' HI Hx Hw).
+  - unfold gdone. now rewrite Hp.
+  - unfold act. rewrite Hp. exact H3.
+Qed.
+
+Lemma InvG_app l x : InvG l -> gwait x = pred_idx (length l) -> gpcv x = GGate0 -> InvG (l ++ [x]).
+Proof.
+  intros HI Hw Hp k y Hk. destruct (nth_error_snoc_cases l x k y Hk) as [[Hl Hy]|[-> ->]].
+  - destruct (HI k y Hy) as [H1 H3]. split; [exact H1|]. intros Ho j z Hj Hz.
+    rewrite nth_error_app1 in Hz by lia. exact (H3 Ho j z Hj Hz).
+  - split; [exact Hw|]. unfold act. rewrite Hp. discriminate.
+Qed.
+
+Lemma InvG_pred_done_all_done l i x :
+  InvG l -> nth_error l i = Some x ->
+  (match gwait x with Some j => gdone (nth j l gor0) | None => true end) = true ->
+  forall j y, j < i -> nth_error l j = Some y -> gdone y = true.
+Proof.
+  intros HI Hx Hc j y Hj Hy. destruct (HI i x Hx) as [H1 _]. rewrite H1 in Hc.
+  destruct i as [|p]; [lia|]. cbn [pred_idx] in Hc.
+  assert (Hp : p < length l) by (apply nth_error_nth_len in Hx; lia).
+  destruct (nth_error l p) as [z|] eqn:Ez; [|apply nth_error_None in Ez; lia].
+  rewrite (nth_error_nth l p gor0 Ez) in Hc.
+  destruct (Nat.eq_dec j p) as [->|Hne]; [congruence|].
+  destruct (HI p z Ez) as [_ G3]. apply (G3 ltac:(unfold act; unfold gdone in Hc; destruct (gpcv z); auto; discriminate) j y); [lia | exact Hy].
+Qed.
+
+Lemma at_most_one_by_order {A} (P : A -> bool) (l : list A) :
+  (forall i j x y, i < j -> nth_error l i = Some x -> nth_error l j = Some y -> P x = true -> P y = true -> False) ->
+  cnt P l <= 1.
+Proof.
+  induction l as [|h t IH]; intros H; [unfold cnt; simpl; lia|].
+  rewrite cnt_cons. destruct (P h) eqn:Eh; simpl.
+  - assert (cnt P t = 0); [|lia]. apply cnt_zero_forall. intros a Ha.
+    destruct (In_nth_error _ _ Ha) as [k Hk]. destruct (P a) eqn:Ea; [|reflexivity].
+    exfalso. apply (H 0 (S k) h a); simpl; auto; lia.
+  - apply IH. intros i j x y Hij Hx Hy. apply (H (S i) (S j) x y); simpl; auto; lia.
+Qed.
+
+(* between entering the resolver and the end of the store section *)
+Definition busy (x : gor) : bool := match gpcv x with GInRes | GStore _ _ _ => true | _ => false end.
+
+Lemma InvG_at_most_one_busy l : InvG l -> cnt busy l <= 1.
+Proof.
+  intros HI. apply at_most_one_by_order. intros i j x y Hij Hx Hy Px Py.
+  destruct (HI j y Hy) as [_ H3].
+  assert (Ha : act y = true) by (unfold act; unfold busy in Py; destruct (gpcv y); auto).
+  specialize (H3 Ha i x Hij Hx). unfold gdone in H3. unfold busy in Px. destruct (gpcv x); discriminate.
+Qed.
+
+Lemma InvG_at_most_one_in_resolver l : InvG l -> cnt in_resolver l <= 1.
+Proof.
+  intros HI. apply (Nat.le_trans _ (cnt busy l)); [|now apply InvG_at_most_one_busy].
+  apply cnt_le. intros x. unfold in_resolver, busy. destruct (gpcv x); auto.
+Qed.
+
+(* ---- the chain part of the state invariant ---- *)
+Definition InvW (s : st) : Prop := waitch s = pred_idx (length (gs s)).
+Definition InvCh (s : st) : Prop := InvG (gs s) /\ InvW s.
+
+Lemma InvCh_ext s s' : gs s' = gs s -> waitch s' = waitch s -> InvCh s -> InvCh s'.
+Proof. intros E1 E2 [H1 H2]. unfold InvCh, InvW in *. rewrite E1, E2. auto. Qed.
+
+Lemma InvCh_rest s s' : rest s' = rest s -> InvCh s -> InvCh s'.
+Proof.
+  intros R. destruct (rest_fields s s' R) as [_ [_ [_ [_ [Ew [_ [_ [_ [_ [_ [_ [_ [Eg _]]]]]]]]]]]]].
+  now apply InvCh_ext.
+Qed.
+
+Lemma InvCh_setg s g x' : InvCh s -> InvG (set_nth (gs s) g x') -> InvCh (setg s g x').
+Proof. intros [H1 H2] H. unfold InvCh, InvW in *. rewrite gs_setg, length_set_nth. cbn [waitch setg set_gs]. auto. Qed.
+
+Lemma cancel_g_chain s og : InvCh s -> InvCh (cancel_g s og).
+Proof.
+  intros H. unfold cancel_g. destruct og as [g|]; [|exact H].
+  destruct (nth_error (gs s) g) as [x|] eqn:E; [|exact H].
+  apply InvCh_setg; [exact H|]. destruct H as [HI _]. now apply (InvG_update_same_pc (gs s) g x).
+Qed.
+
+Lemma clear_resolved_chain s : InvCh s -> InvCh (clear_resolved s).
+Proof.
+  intros H. unfold clear_resolved.
+  set (s1 := if resolved s then _ else s).
+  assert (H1 : InvCh s1).
+  { unfold s1. destruct (resolved s); [|exact H]. apply (InvCh_rest _ _ (rest_call_cbs _ _)). apply (InvCh_ext s); auto. }
+  set (s2 := set_rcancel (cancel_g s1 (rcancel s1)) None).
+  assert (H2 : InvCh s2) by (apply (InvCh_ext (cancel_g s1 (rcancel s1))); auto; now apply cancel_g_chain).
+  destruct (vrel s2); [|exact H2]. apply (InvCh_ext s2); auto.
+Qed.
+
+Lemma shutdown_chain s : InvCh s -> InvCh (shutdown s).
+Proof. intros H. unfold shutdown. apply clear_resolved_chain. apply (InvCh_ext s); auto. Qed.
+
+Lemma start_resolve_chain s : InvCh s -> InvCh (start_resolve s).
+Proof.
+  intros H. unfold start_resolve. pose proof (shutdown_chain s H) as H1. set (s1 := shutdown s) in *.
+  destruct (Nat.eqb (kctx s1) 0 || Nat.eqb (nrefs s1) 0); [exact H1|].
+  destruct H1 as [HI HW]. unfold InvCh, InvW in *. cbn [gs waitch set_rcancel set_waitch set_gs]. split.
+  - apply InvG_app; [exact HI | exact HW | reflexivity].
+  - rewrite app_length. cbn [length]. now rewrite Nat.add_1_r.
+Qed.
+
+Lemma set_context_chain s c : InvCh s -> InvCh (fst (set_context s c)).
+Proof.
+  intros H. unfold set_context. destruct (Nat.eqb (kctx s) c); [exact H|]. cbn [fst].
+  apply start_resolve_chain. apply (InvCh_ext s); auto.
+Qed.
+
+Lemma add_ref_chain fx s k : InvCh s -> InvCh (add_ref fx s k).
+Proof.
+  intros H. unfold add_ref. set (s1 := set_refs s _).
+  assert (H1 : InvCh s1) by (apply (InvCh_ext s); auto).
+  destruct (Nat.eqb (nrefs s1) 1 && negb (resolved s1)); [now apply start_resolve_chain|].
+  destruct (resolved s1); [|exact H1].
+  destruct k; try (apply (InvCh_rest _ _ (rest_invoke _ _ _)); exact H1).
+  destruct (fx_nilcb fx); [exact H1|]. apply (InvCh_ext s1); auto.
+Qed.
+
+Lemma remove_ref_chain s r : InvCh s -> InvCh (remove_ref s r).
+Proof.
+  intros H. unfold remove_ref. destruct (nth_error (refs s) r) as [x|]; [|exact H].
+  destruct (rin x); [|exact H]. set (s1 := set_refs s _).
+  assert (H1 : InvCh s1) by (apply (InvCh_ext s); auto).
+  destruct (Nat.eqb (nrefs s1) 0 && _); [now apply shutdown_chain | exact H1].
+Qed.
+
+Lemma released_section_chain s n : InvCh s -> InvCh (released_section s n).
+Proof. intros H. unfold released_section. destruct (Nat.eqb (nonce s) n); [now apply start_resolve_chain | exact H]. Qed.
+
+(* goroutine steps *)
+Lemma chain_enter s g x :
+  InvCh s -> nth_error (gs s) g = Some x -> gdone x = false -> pred_done s x = true -> InvCh (setg s g (with_gpc x GInRes)).
+Proof.
+  intros H Hx Hnd Hp. apply InvCh_setg; [exact H|]. destruct H as [HI _].
+  apply (InvG_update (gs s) g x _ HI Hx).
+  - reflexivity.
+  - rewrite Hnd. discriminate.
+  - intros _. exact (InvG_pred_done_all_done (gs s) g x HI Hx Hp).
+Qed.
+
+Lemma chain_skip s g x :
+  InvCh s -> nth_error (gs s) g = Some x -> pred_done s x = true -> InvCh (setg s g (with_gpc x GDone)).
+Proof.
+  intros H Hx Hp. apply InvCh_setg; [exact H|]. destruct H as [HI _].
+  apply (InvG_update (gs s) g x _ HI Hx).
+  - reflexivity.
+  - reflexivity.
+  - intros _. exact (InvG_pred_done_all_done (gs s) g x HI Hx Hp).
+Qed.
+
+Lemma chain_block s g x p :
+  InvCh s -> nth_error (gs s) g = Some x -> gdone x = false -> (p = GWait \/ p = GWaitC) -> InvCh (setg s g (with_gpc x p)).
+Proof.
+  intros H Hx Hnd Hp. apply InvCh_setg; [exact H|]. destruct H as [HI _].
+  apply (InvG_update (gs s) g x _ HI Hx).
+  - reflexivity.
+  - rewrite Hnd. discriminate.
+  - destruct Hp as [-> | ->]; cbn; discriminate.
+Qed.
+
+Lemma pred_done_none s x : gwait x = None -> pred_done s x = true.
+Proof. unfold pred_done. now intros ->. Qed.
+
+Lemma proceed_go_chain s g x (en : bool) :
+  InvCh s -> nth_error (gs s) g = Some x -> gdone x = false ->
+  InvCh (match gwait x with
+         | None => setg s g (with_gpc x GInRes)
+         | Some _ =>
+           if pred_done s x && gcanc x then (if en then setg s g (with_gpc x GInRes) else setg s g (with_gpc x GDone))
+           else if pred_done s x then setg s g (with_gpc x GInRes)
+           else if gcanc x then (if fx_wait repaired then setg s g (with_gpc x GWaitC) else setg s g (with_gpc x GDone))
+           else setg s g (with_gpc x GWait)
+         end).
+Proof.
+  intros H Hx Hnd. destruct (gwait x) as [j|] eqn:Ew.
+  - destruct (pred_done s x) eqn:Ec; cbn [andb].
+    + destruct (gcanc x); [destruct en|]; try (now apply chain_enter); now apply chain_skip.
+    + destruct (gcanc x); cbn [fx_wait repaired]; apply chain_block; auto.
+  - apply chain_enter; auto using pred_done_none.
+Qed.
+
+Lemma proceed_chain s g en : InvCh s -> InvCh (proceed repaired s g en).
+Proof.
+  intros H. unfold proceed. destruct (nth_error (gs s) g) as [x|] eqn:Ex; [|exact H].
+  destruct (gpcv x) eqn:Ep; try exact H.
+  - apply proceed_go_chain; auto. unfold gdone. now rewrite Ep.
+  - destruct (pred_done s x || gcanc x); [|exact H]. apply proceed_go_chain; auto. unfold gdone. now rewrite Ep.
+  - destruct (pred_done s x) eqn:Ec; [now apply chain_skip | exact H].
+Qed.
+
+Lemma resolver_return_chain s g v hr e : InvCh s -> InvCh (resolver_return s g v hr e).
+Proof.
+  intros H. unfold resolver_return. destruct (nth_error (gs s) g) as [x|] eqn:Ex; [|exact H].
+  destruct (gpcv x) eqn:Ep; try exact H.
+  apply InvCh_setg; [exact H|]. destruct H as [HI _]. destruct (HI g x Ex) as [_ E3].
+  apply (InvG_update (gs s) g x _ HI Ex).
+  - reflexivity.
+  - unfold gdone. rewrite Ep. discriminate.
+  - intros _. apply E3. unfold act. now rewrite Ep.
+Qed.
+
+Lemma chain_finish s g x v hr e :
+  InvCh s -> nth_error (gs s) g = Some x -> gpcv x = GStore v hr e -> InvCh (setg s g (with_gpc x GDone)).
+Proof.
+  intros H Hx Hp. apply InvCh_setg; [exact H|]. destruct H as [HI _]. destruct (HI g x Hx) as [_ E3].
+  apply (InvG_update (gs s) g x _ HI Hx).
+  - reflexivity.
+  - reflexivity.
+  - intros _. apply E3. unfold act. now rewrite Hp.
+Qed.
+
+Lemma store_chain s g : InvCh s -> InvCh (store s g).
+Proof.
+  intros H. unfold store. destruct (nth_error (gs s) g) as [x|] eqn:Ex; [|exact H].
+  destruct (gpcv x) eqn:Ep; try exact H.
+  pose proof (chain_finish s g x v hasrel e H Ex Ep) as H0. set (s0 := setg s g (with_gpc x GDone)) in *.
+  destruct (negb (Nat.eqb (nonce s0) (gnonce x))).
+  - destruct hasrel; [|exact H0]. apply (InvCh_ext s0); auto.
+  - apply (InvCh_rest _ _ (rest_call_cbs _ _)).
+    destruct (Nat.eqb e 0); apply (InvCh_ext s0); auto.
+Qed.
+
+Lemma release_call_by_chain s r oc : InvCh s -> InvCh (fst (release_call_by s r oc)).
+Proof.
+  intros H. unfold release_call_by. destruct (nth_error (refs s) r) as [x|]; [|exact H].
+  destruct (rflag x); [exact H|]. apply (InvCh_ext s); auto.
+Qed.
+
+Lemma release_section_chain s a : InvCh s -> InvCh (release_section s a).
+Proof.
+  intros H. unfold release_section. destruct (nth_error (relacts s) a) as [x|]; [|exact H].
+  destruct (ra_pc x); [|exact H].
+  set (s1 := remove_ref _ (ra_ref x)).
+  assert (H1 : InvCh s1) by (apply remove_ref_chain; apply (InvCh_ext s); auto).
+  destruct (ra_cons x) as [c|]; [|exact H1]. destruct (cpcv (getc s1 c)); exact H1.
+Qed.
+
+Lemma async_section_chain s a : InvCh s -> InvCh (async_section s a).
+Proof.
+  intros H. unfold async_section. destruct (nth_error (asyncs s) a) as [x|]; [|exact H].
+  destruct (as_pc x); [|exact H]. apply released_section_chain. apply (InvCh_ext s); auto.
+Qed.
+
+Lemma cons_fail_chain s c x e : InvCh s -> InvCh (cons_fail s c x e).
+Proof.
+  intros H. unfold cons_fail.
+  pose proof (release_call_by_chain (setc s c (with_cpc x (CRel e))) (cref x) (Some c)) as G.
+  destruct (release_call_by (setc s c (with_cpc x (CRel e))) (cref x) (Some c)) as [s1 parked]. cbn [fst] in G.
+  assert (H1 : InvCh s1) by (apply G; apply (InvCh_ext s); auto).
+  destruct parked; [exact H1|]. apply (InvCh_ext s1); auto.
+Qed.
+
+Lemma cons_step_chain s c : InvCh s -> InvCh (cons_step s c).
+Proof.
+  intros H. unfold cons_step. destruct (nth_error (conss s) c) as [x|]; [|exact H].
+  destruct (ck x), (cpcv x); try exact H.
+  - destruct (cw_res x) as [[v e]|].
+    + destruct (Nat.eqb e 0); [apply (InvCh_ext s); auto | now apply cons_fail_chain].
+    + destruct (ccanc x); [now apply cons_fail_chain | exact H].
+  - destruct (ww_prom x) as [[v e]|].
+    + destruct (Nat.eqb e 0); [apply (InvCh_ext s); auto | now apply cons_fail_chain].
+    + destruct (ccanc x); [now apply cons_fail_chain | exact H].
+Qed.
+
+Lemma fire_section_chain s c : InvCh s -> InvCh (fire_section s c).
+Proof.
+  intros H. unfold fire_section. destruct (nth_error (conss s) c) as [x|]; [|exact H].
+  destruct (ww_firepc x) as [[|]|]; try exact H. apply remove_ref_chain. apply (InvCh_ext s); auto.
+Qed.
+
+Lemma step_chain s e : InvCh s -> InvCh (step repaired s e).
+Proof.
+  intros H. destruct e; cbn [step].
+  - now apply set_context_chain.
+  - now apply add_ref_chain.
+  - now apply release_call_by_chain.
+  - now apply release_section_chain.
+  - destruct (nth_error (gs s) g); [now apply released_section_chain | exact H].
+  - now apply async_section_chain.
+  - now apply proceed_chain.
+  - now apply resolver_return_chain.
+  - now apply store_chain.
+  - unfold start_consumer. apply add_ref_chain. apply (InvCh_ext s); auto.
+  - now apply cons_step_chain.
+  - destruct (nth_error (conss s) c); [apply (InvCh_ext s); auto | exact H].
+  - now apply fire_section_chain.
+Qed.
+
+Lemma init_chain k : InvCh (init k).
+Proof. split; [apply InvG_nil | reflexivity]. Qed.
+
+Theorem run_chain k es : InvCh (run repaired (init k) es).
+Proof. unfold run. apply fold_inv; [intros s e; apply step_chain | apply init_chain]. Qed.
+
+(* ---- C09: the resolver is never running in two calls at once ---- *)
+Theorem at_most_one_in_resolver k es : cnt in_resolver (gs (run repaired (init k) es)) <= 1.
+Proof. apply InvG_at_most_one_in_resolver. apply run_chain. Qed.
+
+(* stronger: from entering the resolver to the end of the store section *)
+Theorem at_most_one_busy k es : cnt busy (gs (run repaired (init k) es)) <= 1.
+Proof. apply InvG_at_most_one_busy. apply run_chain. Qed.
+
+(* a goroutine enters the resolver only when every earlier goroutine has finished (its done channel is closed) *)
+Theorem enter_only_after_all_earlier k es g x :
+  let s := run repaired (init k) es in
+  nth_error (gs s) g = Some x -> act x = true -> forall j y, j < g -> nth_error (gs s) j = Some y -> gdone y = true.
+Proof. intros s Hx Ha. destruct (run_chain k es) as [HI _]. fold s in HI. destruct (HI g x Hx) as [_ E3]. exact (E3 Ha). Qed.
+
+(* the pinned code (before the D10 repair): a cancelled goroutine that still waits for its predecessor closes its done
+   channel at once, and the next goroutine's resolver call overlaps the first *)
+Definition pinned_d10 : fixes := {| fx_wait := false; fx_nilcb := true |}.
+Definition d10_witness : list ev :=
+  [ESetCtx 1; EAddRef 1; EProceed 0 true; ESetCtx 2; EProceed 1 false; ESetCtx 3; EProceed 1 false; EProceed 2 true].
+Lemma d10_refuted : cnt in_resolver (gs (run pinned_d10 (init false) d10_witness)) = 2.
+Proof. vm_compute. reflexivity. Qed.
